@@ -249,7 +249,9 @@ def parse_race_logs(pattern, module_marker, harness_marker="zz_verif_"):
                     o = fn
             outer.append(o or (fr[-1][0] if fr else "?"))
         inner = tuple((fr[0][0] + " " + re.sub(r" \+0x[0-9a-f]+$", "", fr[0][1])) if fr else "?" for fr in frames_all)
-        key = (tuple(outer), tuple(re.sub(r":\d+.*$", "", x) for x in inner))
+        # de-duplicate by the unordered pair of outermost entry points in the module and
+        # by the innermost function pair (line numbers stripped)
+        key = (tuple(sorted(str(x) for x in outer)), tuple(sorted(x.split(" ")[0] for x in inner)))
         d = distinct.setdefault(key, {"count": 0, "repo_related": repo_related, "outer": list(outer), "inner": list(inner), "example": blk.strip()[:3500]})
         d["count"] += 1
         d["repo_related"] = d["repo_related"] or repo_related
@@ -310,4 +312,30 @@ SPECS["C09"] = dict(
     assumptions=list(V2_ASSUME) + ["the race detector only sees interleavings that occur; reports vary from run to run, hence repeated processes"],
     floor_evals={"quick": 10, "thorough": 100},
     floor_nontrivial={"quick": 8, "thorough": 80},
+)
+
+SPECS["C11"] = v2spec(
+    "TestVerifC11",
+    title="Normalize output lines up with Match positions and matches the same",
+    rule=("case = one input (every corpus document alone and planted, 5%-edited, concatenations, scenario files, crafted layouts: leading blank/decoration/notice/upper-case-marker lines, hyphen splits, "
+          "CR/CRLF, inserted notices). Oracle (a): line k of Normalize(in) holds exactly the words Match attributes to line k (white-box token view, case-folded, interchangeable spellings applied); "
+          "(b): Match(Normalize(in)) == Match(in) on licenses, confidence bits, token spans and lines. Every fourth case runs Normalize and both Match calls on one classifier instance. "
+          "Failures are attributed to KF-C11-1/2 only by their token-level signatures. Non-trivial = input with >= 1 license match; distinct = distinct input."),
+    floor_evals={"quick": 1000, "thorough": 10000},
+    floor_nontrivial={"quick": 600, "thorough": 6000},
+    timeout={"quick": 1500, "thorough": 3 * 3600},
+)
+
+SPECS["C12"] = v2spec(
+    "TestVerifC12",
+    title="loading a corpus directory equals adding each of its files",
+    rule=("case = (generated directory tree, spelling of its path). Trees: 2-13 files at category/name/variant depth (names with spaces, dots, unicode, directories named *txt, suffixes .txt/txt/.mtxt/.TXT/none, empty files) "
+          "plus junk that must be ignored (shallower *.txt files, other suffixes); every fourth tree also has deeper files and *txt directories at depth 3 (only the no-panic claim applies). "
+          "Spellings: absolute, absolute/, relative, ./rel, rel/, ./rel/, rel//, rel/., '.', ../parent/rel, symlink/. Oracle: no panic; no ignored file in the corpus; for exact-depth trees LoadLicenses returns nil and the loaded "
+          "classifier equals (white-box key set and per-key word sequences; Match results on planted/edited/filler queries) one built with AddContent per file. One case compares assets.DefaultClassifier() with "
+          "LoadLicenses(assets) (keys, words, 150/1500 queries). Non-trivial = every case (a LoadLicenses call on a non-empty tree); distinct = (tree, spelling)."),
+    floor_evals={"quick": 400, "thorough": 10000},
+    floor_nontrivial={"quick": 300, "thorough": 8000},
+    shards={"quick": 4, "thorough": 8}, workers={"quick": 1, "thorough": 1},
+    timeout={"quick": 1500, "thorough": 3 * 3600},
 )
